@@ -274,6 +274,14 @@ func (d *db) rebuildLog(logNum fileNum) (err error) {
 }
 
 func (d *db) saveIndex() error {
+	// the index refers to records by their positions in the current log file,
+	// records not fsynced yet (e.g. commit only state updates) must be durable
+	// before an index pointing at them is
+	if d.mu.logFile != nil {
+		if err := d.mu.logFile.Sync(); err != nil {
+			return err
+		}
+	}
 	return d.mu.nodeStates.save(d.dirname, d.dataDir, d.mu.logNum, d.opts.FS)
 }
 
